@@ -713,12 +713,19 @@ def rule_taproot_type_defaults_to_default(ctx: Ctx, rep: Report) -> None:
     that asked for nothing is an accepted answer."""
     rule = "C11.taproot_type_defaults_to_default"
     fi = ctx.func(f"{P}._assert_taproot_sig_hash_type")
-    tests = [i for i in own_nodes(fi.node) if isinstance(i, ast.If) and any(isinstance(x, ast.Raise) for x in i.body) and "sig_hash_type" in str(norm(i.test))]
+    from sa import values as VX
+    vx = VX.of(fi)
+    # the refusing test with its locals inlined: a condition given a name first is the same condition
+    tests = []
+    for i in own_nodes(fi.node):
+        if isinstance(i, ast.If) and any(isinstance(x, ast.Raise) for x in i.body):
+            for v in (vx.value_of(i.test) or [i.test]):
+                if "sig_hash_type" in str(norm(v)):
+                    tests.append((i, v))
     if not tests:
         rep.ob(rule, "_assert_taproot_sig_hash_type:test", False, fi.where(), "no refusal on the stated sig_hash type")
         return
-    for i in tests:
-        t = i.test
+    for i, t in tests:
         names = {x.id for x in ast.walk(t) if isinstance(x, ast.Name)} | {x.attr for x in ast.walk(t) if isinstance(x, ast.Attribute)}
         wildcard = isinstance(t, ast.BoolOp) and isinstance(t.op, ast.And) and any(isinstance(v, ast.Compare) and isinstance(v.ops[0], ast.IsNot) and isinstance(v.comparators[0], ast.Constant) and v.comparators[0].value is None for v in t.values)
         ok = "DEFAULT" in names and not wildcard
